@@ -80,15 +80,24 @@ def main(tier):
         occ["%s/%s" % (r["position"], "exposed" if r["expose"] else "nested")] = r["occurrences"]
         if r["status"] == "inconclusive":
             rep.inconc("%s: %s" % (r["position"], r.get("note", "solver unknown")))
+        expanded = []
         for kind, lit, desc in r["findings"]:
+            if kind == "inject-search":
+                expanded += [("inject", c, desc, "search:%s:%s:%s" % (r["position"], r["expose"], desc[:30])) for c in lit]
+            else:
+                expanded.append((kind, lit, desc, None))
+        for kind, lit, desc, group in expanded:
             if kind in ("inject", "raise", "dropped"):
                 q = lf.quote(lit) if isinstance(lit, str) else None
                 if q is None:
-                    rep.inconc("witness %r for %s not expressible as a DSL literal" % (lit, r["position"]))
+                    if not group:
+                        rep.inconc("witness %r for %s not expressible as a DSL literal" % (lit, r["position"]))
                     continue
                 witnesses.append({"kind": "inert", "text": lf.text_for(r["position"], q),
                                   "harmless": lf.text_for(r["position"], '"h"'), "expose": r["expose"],
                                   "why": "%s at position %s (literal %r)" % (desc, r["position"], lit)})
+                if group:
+                    witnesses[-1]["search_group"] = group
     corpus = lf.ADVERSARIAL + (lf.STRINGS if tier == "thorough" else lf.STRINGS[:12])
     citems = [(p, s) for p in render.POSITIONS for s in corpus]
     cres = [c for c in common.pmap(corpus_item, citems, chunksize=8) if c is not None]
@@ -97,22 +106,34 @@ def main(tier):
             witnesses.append({"kind": "inert", "text": c["text"], "harmless": lf.text_for(c["position"], '"h"'),
                               "expose": False, "why": "corpus literal %r at %s: %s" % (c["literal"], c["position"], c["problem"])})
     seen = set()
+    groups = {}
     for w in witnesses:
         if len(rep.violations) >= 5:
             break
-        key = w["why"][:60]
+        g = w.get("search_group")
+        key = w["why"][:60] + str(w.get("expose"))
+        if g:
+            if groups.get(g) == "found":
+                continue
+            groups.setdefault(g, "open")
         if key in seen:
             continue
         seen.add(key)
         payload = dict(w)
         payload["property"] = PROP
+        payload.pop("search_group", None)
         o = common.run_replay_subprocess(payload)
         payload["replay_result"] = o
         summary = "%s | %s" % (w["why"], o.get("observed", ""))
         if o.get("reproduced"):
             rep.violation(payload, summary)
-        else:
+            if g:
+                groups[g] = "found"
+        elif not g:
             rep.inconc("witness did not reproduce: " + summary)
+    for g, st in groups.items():
+        if st != "found" and len(rep.violations) < 5:
+            rep.inconc("%s: none of the candidate payloads changes the structure of the generated code" % g)
     coverage = {
         "programs": len(items),
         "disagreements_checked": total.unsat + total.sat,
